@@ -21,13 +21,15 @@ import (
 func init() {
 	Registry["C10"] = &Check{
 		Scenarios: c10Scenarios,
-		Rule: "server side: every history of <=4 (thorough 5) peer messages over {acceptable CER, CER without common application, retransmitted CER, DWR, RAR (app 0), RAA, CCR (app 4), ACR (app 3)}; client side (sm.Client.NewConn): every history of <=4 (thorough 5) messages over {success CEA, failing CEA, application-less CEA, a CER sent by the peer, DWR, RAR, RAA, CCA} sent in reply to the CER; application handlers registered by short name, by index and as catch-all (three configurations), each after attempts to register CER / CEA / DWR by name and by index; each history delivered in one segment and one segment per message; and histories (one shorter, with an unsolicited success CEA added to the alphabet) on an accepted connection served by a state machine that is also the handler of an sm.Client whose dial has completed. One deterministic schedule per history on the instrumented build (the quantifier is over histories; the scheduler supplies determinism and an exact notion of quiescence). Oracle: the sequence of application-handler invocations equals the gate model (invoked iff the handshake succeeded earlier on this connection), refused registrations never run, and the built-in CEA/DWA are still produced.",
+		Rule: "server side: every history of <=4 (thorough 5) peer messages over {acceptable CER, CER without common application, retransmitted CER, DWR, RAR (app 0), RAA, CCR (app 4), ACR (app 3)}; client side (sm.Client.NewConn): every history of <=4 (thorough 5) messages over {success CEA, failing CEA (result code rotating over 5010, 1001, 3004, 1, 4001, 5012), application-less CEA, a CER sent by the peer, DWR, RAR, RAA, CCA} sent in reply to the CER; application handlers registered by short name, by index and as catch-all (three configurations), each after attempts to register CER / CEA / DWR by name and by index; each history delivered in one segment and one segment per message; and histories (one shorter, with an unsolicited success CEA added to the alphabet) on an accepted connection served by a state machine that is also the handler of an sm.Client whose dial has completed. One deterministic schedule per history on the instrumented build (the quantifier is over histories; the scheduler supplies determinism and an exact notion of quiescence). Oracle: the sequence of application-handler invocations equals the gate model (invoked iff the handshake succeeded earlier on this connection), refused registrations never run, and the built-in CEA/DWA are still produced.",
 		Assume: []string{"single default schedule per history", "reference gate model {handshake done, closed}"},
 		QuickBudget: 120, ThoroughBudget: 1800,
 	}
 }
 
 var c10ServerAlpha = []string{"cer", "cer-noapp", "cer-retx", "dwr", "rar", "raa", "ccr", "acr"}
+var c10FailCodes = []uint32{5010, 1001, 3004, 1, 4001, 5012}
+
 var c10ClientAlpha = []string{"cea", "cea-fail", "cea-noapp", "cer", "dwr", "rar", "raa", "cca"}
 
 func c10Msg(kind string, seq int) []byte {
@@ -413,7 +415,13 @@ func c10Client(r *SeqResult, cfg string, oneSeg bool, hists [][]string) {
 					case "cea":
 						m = peerAnswer(cer, 2001, true)
 					case "cea-fail":
-						m = peerAnswer(cer, 5010, true)
+						// the failing result code rotates with the history: permanent, transient and protocol
+						// failures, and informational codes below 2000 (anything but success is a failure)
+						h := i
+						for _, c := range strings.Join(hist, ",") {
+							h = h*31 + int(c)
+						}
+						m = peerAnswer(cer, c10FailCodes[uint(h)%uint(len(c10FailCodes))], true)
 					case "cea-noapp":
 						m = peerAnswer(cer, 2001, false)
 					default:
